@@ -22,7 +22,6 @@ import json
 import os
 import sys
 import threading
-import time
 import types
 
 from vlib import corpus, pool
@@ -54,6 +53,22 @@ def snapshot():
         snap["patch"] = f"unavailable: {e}"
     snap["archive_config"] = repr(A._config)
     snap["threads"] = threading.active_count()
+    # process-wide tables of the standard library that decide results (routing of names the router does not know, content types of images,
+    # charsets): they belong to the process, not to whichever extractor module happened to be imported (lazily) first
+    import codecs
+    import mimetypes
+    db = mimetypes._db
+    if db is not None:
+        tbl = [sorted(db.types_map[True].items()), sorted(db.types_map[False].items()), sorted(db.suffix_map.items()), sorted(db.encodings_map.items())]
+        snap["mimetypes:tables"] = hashlib.sha1(json.dumps(tbl).encode()).hexdigest()[:12] + f":{sum(len(t) for t in tbl)} entries"
+    probe = []
+    for name in CODEC_PROBES:
+        try:
+            probe.append(codecs.lookup(name).name)
+        except LookupError:
+            probe.append(None)
+    snap["codecs:lookup"] = json.dumps(probe)
+    snap["interpreter:limits"] = f"recursion={sys.getrecursionlimit()} cwd={os.getcwd()} path={hashlib.sha1(json.dumps(sys.path).encode()).hexdigest()[:8]}"
     try:
         tmp = os.environ.get("TMPDIR") or "/tmp"
         snap["tmp_entries"] = len([n for n in os.listdir(tmp)]) if os.environ.get("VERIF_PRIVATE_TMP") else -1
@@ -66,6 +81,10 @@ def snapshot():
     return snap
 
 
+CODEC_PROBES = ["iso-8859-8-i", "iso-8859-8-e", "x-mac-roman", "x-sjis", "windows-31j", "unicode-1-1-utf-7", "x-user-defined", "cp-1252", "win1252", "ansi", "utf8mb4", "binary",
+                "iso-8859-1-windows-3.1-latin-1", "ks_c_5601-1987", "x-euc-jp", "x-gbk", "no-such-charset", "dos-862", "cp65001", "unicode"]
+
+
 def _digest(results):
     out = []
     for r in results:
@@ -76,6 +95,15 @@ def _digest(results):
 def _step(step):
     """[kind, recipe] or [kind, recipe, path index] -> canonical 3-element step."""
     return [step[0], step[1], step[2] if len(step) > 2 else 1]
+
+
+def _short(step) -> str:
+    """Readable name of a step (base64 payloads of raw sources are replaced by their length and label)."""
+    kind, recipe, pidx = _step(step)
+    src = recipe["src"]
+    if src and src[0] == "raw":
+        src = ["raw", f"<{len(src[1]) * 3 // 4} bytes>"] + list(src[2:])
+    return f"{kind} {src}" + (f" {recipe['op']}" if recipe.get("op") else "") + f" path#{pidx}"
 
 
 def _step_key(step) -> str:
@@ -91,6 +119,24 @@ def _step_io(step):
 
 def _extract_digest(kind, data, path):
     from vlib import obs
+    if kind == "route":
+        # a routing question instead of an extraction: the answers for names only the MIME fallback decides
+        import sharepoint2text
+        from sharepoint2text.parsing.exceptions import ExtractionFileFormatNotSupportedError
+        out = []
+        for name in data.decode().split("\n"):
+            try:
+                s_ = bool(sharepoint2text.is_supported_file(name))
+            except Exception as e:
+                s_ = f"raises {type(e).__name__}"
+            try:
+                g_ = getattr(sharepoint2text.get_extractor(name), "__name__", "?")
+            except ExtractionFileFormatNotSupportedError:
+                g_ = "N"
+            except Exception as e:
+                g_ = f"raises {type(e).__name__}"
+            out.append([name, s_, g_])
+        return [hashlib.sha1(json.dumps(out).encode()).hexdigest()[:16]]
     try:
         return _digest(list(obs.extractor(kind)(io.BytesIO(data), path)))
     except Exception as e:
@@ -100,7 +146,9 @@ def _extract_digest(kind, data, path):
 def work_init(init):
     import logging
     logging.disable(logging.CRITICAL)
+    import mimetypes
     import tempfile
+    mimetypes.init()            # the table as the host provides it is the reference state (the stdlib builds it lazily on first use)
     import sharepoint2text  # noqa
     # deliberately NO pre-import of the extractor modules here: the router imports them lazily, and import-time side effects
     # (registries, codecs, monkey patches) are exactly the kind of history a result must not depend on
@@ -301,6 +349,13 @@ def _lock_aware_run(sched, current, stall_s):
             threads = [threading.Thread(target=self._thread_main, args=(i, fns[i]), daemon=True) for i in range(self.n)]
             for t in threads:
                 t.start()
+            # every thread is parked at its "start" point before the first decision is taken: otherwise the set of enabled
+            # threads at step 0 depends on how fast the OS started them, and the enumeration is neither reproducible nor complete
+            with self.cv:
+                t_end = time.monotonic() + 120
+                while len(set(self.waiting) | self.finished) < self.n:
+                    if not self.cv.wait(timeout=1.0) and time.monotonic() > t_end:
+                        raise sched.Deadlock(f"only {sorted(self.waiting)} of {self.n} threads reached their start point")
             step = 0
             last = None
             blocked = set()
@@ -351,16 +406,23 @@ def part_stress(case):
     rng = random.Random(case["seed"])
     steps = [_step([k, {"src": s, "op": None}] + list(rest)) for k, s, *rest in case["inputs"]]
     inputs = [_step_io(st) for st in steps]
-    expect = case.get("expect") or [None] * len(inputs)
+    expect = list(case.get("expect") or [None] * len(inputs))
+    unstable = 0
+    other_bytes = {i for i, sha in enumerate(case.get("expect_sha") or []) if expect[i] is not None and sha != hashlib.sha1(inputs[i][1]).hexdigest()[:16]}
     base = {}
     problems = []
     # sequential warm-up: one extraction per input in this process (a history of its own); where the parent knows the
     # isolated (fresh-process) digest of an input, that one is the reference for everything below
     for i, (kind, data, path) in enumerate(inputs):
         d = _extract_digest(kind, data, path)
+        if i in other_bytes and d != expect[i]:
+            # the generator produced other bytes than for the baseline process (writer not deterministic beyond a container timestamp, or
+            # edited during the run) and the result differs: no isolated reference for this input
+            expect[i] = None
+            unstable += 1
         if expect[i] is not None and d != expect[i]:
             problems.append({"sym": "result-differs-from-isolated-baseline", "feature": _feature(steps[i]), "part": "history",
-                             "detail": f"{_step_key(steps[i])[:200]}: {d} sequentially before the threads start vs {expect[i]} in a fresh process"})
+                             "detail": f"{_short(steps[i])}: {d} sequentially before the threads start vs {expect[i]} in a fresh process"})
         base[i] = expect[i] if expect[i] is not None else d
     before = snapshot()
     lock = threading.Lock()
@@ -385,7 +447,7 @@ def part_stress(case):
             with lock:
                 runs[0] += 1
                 if d != base[i]:
-                    problems.append({"sym": "result-differs-under-concurrency", "feature": _feature(steps[i]), "detail": f"{case['inputs'][i][1]}: {d} vs baseline {base[i]}"})
+                    problems.append({"sym": "result-differs-under-concurrency", "feature": _feature(steps[i]), "detail": f"{_short(steps[i])}: {d} vs baseline {base[i]}"})
     ts = [threading.Thread(target=body, args=(t,)) for t in range(case["threads"])]
     try:
         for t in ts:
@@ -405,22 +467,22 @@ def part_stress(case):
     for i, (kind, data, path) in enumerate(inputs):
         d = _extract_digest(kind, data, path)
         if d != base[i]:
-            problems.append({"sym": "result-differs-after-concurrent-history", "feature": _feature(steps[i]), "detail": f"{case['inputs'][i][1]}: {d} vs baseline {base[i]}"})
+            problems.append({"sym": "result-differs-after-concurrent-history", "feature": _feature(steps[i]), "detail": f"{_short(steps[i])}: {d} vs baseline {base[i]}"})
     first = {}
     for p in problems:
         first.setdefault((p["sym"], p.get("feature")), p)
     if thread_errors:
         return {"_harness_error": "stress thread failed: " + thread_errors[0]}
-    return {"part": "stress", "extractions": runs[0], "problems": list(first.values()), "isolated_references": sum(1 for e in expect if e is not None)}
+    return {"part": "stress", "extractions": runs[0], "problems": list(first.values()), "isolated_references": sum(1 for e in expect if e is not None), "unstable_inputs": unstable}
 
 
 def _feature(step) -> str:
-    """Mechanism-level name of what a step is: the generic pool is 'sequence'/'mixed-workload', a context-group member its family and variant."""
+    """Mechanism-level name of what a step is: '' for the generic pool ('sequence' / 'mixed-workload'), family + varied context for a context-group member."""
     src = step[1]["src"]
     if iso.is_iso(src):
-        if src[1] == "drop":
-            return f"{step[0]}-without-" + "+".join(n.rsplit("/", 1)[-1] for n in src[3])
-        return f"{src[1]}-{str(src[2]).replace(':', '-')}" + ("" if not step[1].get("op") else "-damaged")
+        return iso.feature(src, step[0]) + ("" if not step[1].get("op") else "-damaged")
+    if src[0] == "raw" and len(src) > 2:
+        return str(src[2])
     return ""
 
 
@@ -430,11 +492,13 @@ def part_history(case):
     start = snapshot()
     steps = 0
     digests = {}
+    shas = {}
     for step, st in enumerate(case["steps"]):
         kind, recipe, pidx = _step(st)
         kind, data, path = _step_io(st)
         d = _extract_digest(kind, data, path)
         digests.setdefault(_step_key(st), []).append(d)
+        shas[_step_key(st)] = hashlib.sha1(data).hexdigest()[:16]
         steps += 1
         gc.collect()
         now = snapshot()
@@ -447,14 +511,14 @@ def part_history(case):
     first = {}
     for p in problems:
         first.setdefault(p["sym"], p)
-    return {"part": "history", "steps": steps, "digests": digests, "problems": list(first.values())}
+    return {"part": "history", "steps": steps, "digests": digests, "shas": shas, "problems": list(first.values())}
 
 
 def part_baseline(case):
     kind, data, path = _step_io(case["step"])
-    out = {"part": "baseline", "digest": _extract_digest(kind, data, path)}
+    out = {"part": "baseline", "digest": _extract_digest(kind, data, path), "sha": hashlib.sha1(data).hexdigest()[:16]}
     src = case["step"][1]["src"]
-    if iso.is_iso(src) and src[1] != "drop" and not case["step"][1].get("op"):
+    if iso.is_iso(src) and src[1] != "drop" and kind != "route" and not case["step"][1].get("op"):
         # generator self-check: the isolated result shows what the writer says it wrote (its own tokens, decoded escapes)
         from vlib import obs
         t = iso.truth(src)
@@ -473,12 +537,32 @@ def work(case):
 
 
 # ------------------------------------------------------------------------------------------ parent
+def _encrypted_pdfs(run):
+    from vlib import core
+    from vlib.gen import pdfenc, pdfw
+    feats = [None] + sorted(pdfw.PDF_FEATURES)[:2]
+    members = []
+    specs = [("AES-128", run.seed * 10 + i, feats[i % len(feats)]) for i in range(run.n(4, 6))]
+    specs += [("AES-256", run.seed * 10 + 7, None)] * (0 if run.quick else 1)      # one: its key derivation alone costs seconds in pure Python
+    for alg, seed, feat in specs:
+        plain, _ = pdfw.build_pdf(seed, feat)
+        members.append(("pdf", ["raw", core.b64(pdfenc.encrypt_pdf(plain, alg, "")), "pdf-aes-encrypted"] + (["aes256"] if alg == "AES-256" else [])))
+    plain, _ = pdfw.build_pdf(run.seed * 10, None)
+    members.append(("pdf", ["raw", core.b64(pdfenc.encrypt_pdf(plain, "RC4-128", "")), "pdf-rc4-encrypted"]))
+    members.append(("pdf", ["raw", core.b64(plain), "pdf-unencrypted-twin"]))
+    return members
+
+
 def main(run):
     run.rule = ("scheduler part: case = one complete schedule of k threads through the real patch/extract/restore section (scheduling points = accesses to the patched module attribute), distinct = distinct "
-                "thread-order traces; stress part: case = one extraction under 8-thread preemption; history part: case = one step of a random extraction sequence. non-trivial = the end-state / digest oracle was evaluated")
+                "thread-order traces; stress part: case = one extraction under 8-thread preemption (mixed workload, and context groups: documents that share a sub-key and differ in the context that decides its meaning); "
+                "history part: case = one step (bytes, path argument) of an extraction sequence — random over the pool, or a shuffled walk over one context group — compared with the same step in a fresh process. "
+                "non-trivial = the end-state / digest oracle was evaluated")
     run.assumptions = ["schedules are explored at the granularity of accesses to the patched attribute (the only conflicting operations of the patch/restore race)",
                        "memo tables may grow; the patched function identity, archive configuration, private TMPDIR, thread count and open handles must be restored",
-                       "the one-way AES provider patch is documented behaviour and not part of the snapshot"]
+                       "the one-way AES provider patch is documented behaviour and not part of the snapshot",
+                       "waiting for one of the extractor module's own locks is a logical scheduler state (thread not enabled until release), not a wall-clock guess; "
+                       "the wall-clock stall rule only serves blocking the harness does not know about (counter schedules_where_a_thread_stalled_outside_points_and_locks)"]
     rng = run.rng
     sources = corpus.all_sources(n_gen=3, base_seed=run.seed * 1000)
     pdfs = [("pdf", s) for s in sources.get("pdf", []) if s[0] == "gen" or "large_table" not in s[1]]
@@ -501,8 +585,12 @@ def main(run):
 
     # ---- context groups: members share a sub-key and differ in the context that decides its meaning (+ optional parts absent / dangling)
     def pidx_of(src):
-        """A document is seen under two paths: none at all, and one fixed path of its own."""
-        return rng.choice((0, 1 + zlib.crc32(json.dumps(src).encode()) % (len(iso.PATHS) - 1)))
+        """A document is seen under two paths: none at all, and one fixed path of its own (quick tier: one of the two per seed,
+        so that the number of isolated baselines = fresh processes stays small)."""
+        own = 1 + zlib.crc32(json.dumps(src).encode()) % (len(iso.PATHS) - 1)
+        if run.quick:
+            return (0, own)[zlib.crc32(f"{run.seed}:{json.dumps(src)}".encode()) % 2]
+        return rng.choice((0, own))
     groups = iso.groups()
     dropped = iso.dropped_sources(sources, per_kind=run.n(1, 3))
     # corpus documents with optional package parts removed, as one more group per kind (same package, part present / absent)
@@ -511,12 +599,17 @@ def main(run):
         by_kind.setdefault(k, []).append((k, s))
     for k, ms in sorted(by_kind.items()):
         groups.append({"name": f"{k}:optional-parts-removed/package", "members": ms + [(k, ms[0][1][2])]})
-    iso_steps = [[k, {"src": s, "op": None}, p] for g in groups for k, s in g["members"] for p in (0, 1 + zlib.crc32(json.dumps(s).encode()) % (len(iso.PATHS) - 1))]
+    # PDFs that open with the empty user password, encrypted here in the parent by pypdf's writer over the reference AES (vlib/gen/pdfenc.py):
+    # the same cipher kernel, another document key / IV / content per member (plus the unencrypted and the RC4 form of one of them)
+    groups.append({"name": "pdf:cipher-kernel/document-key", "members": _encrypted_pdfs(run)})
+    iso_steps = [[k, {"src": s, "op": None}, p] for g in groups for k, s in g["members"]
+                 for p in ((pidx_of(s),) if run.quick else (0, 1 + zlib.crc32(json.dumps(s).encode()) % (len(iso.PATHS) - 1)))]
     for gi, g in enumerate(groups):
-        if run.quick and gi % 3 != run.seed % 3 and g["name"].split(":")[0] not in ("rtf", "docx"):
+        if run.quick and gi % 3 != run.seed % 3 and g["name"].split(":")[0] not in ("rtf", "docx", "pdf", "router", "archive"):
             continue        # quick tier: a third of the groups per seed under threads (all of them in the histories below)
+        # (the AES-256 member takes seconds per extraction: it stays in the histories, the threads get the cheap members)
         stress_cases.append({"part": "stress", "seed": run.seed * 1000 + 500 + gi, "threads": 8, "iterations": run.n(10, 30), "group": g["name"],
-                             "inputs": [[k, s, pidx_of(s)] for k, s in g["members"]]})
+                             "inputs": [[k, s, pidx_of(s)] for k, s in g["members"] if not (s[0] == "raw" and "aes256" in str(s[2:]))]})
     hist_cases = []
     pool_steps = [[k, {"src": s, "op": None}] for k, s in pdfs + others]
     # failing / damaged inputs of every kind in the pool (archives included: a failure half-way through unpacking must clean up too)
@@ -547,15 +640,18 @@ def main(run):
             st = _step([inp[0], {"src": inp[1], "op": None}] + list(inp[2:]))
             wanted.setdefault(_step_key(st), st)
     base_cases = [{"part": "baseline", "step": st} for st in wanted.values()]
-    if os.environ.get("VERIF_C15_DEBUG"):
-        print("DEBUG baselines", len(base_cases), "iso", sum(1 for c in base_cases if iso.is_iso(c["step"][1]["src"])), "pool_steps", len(pool_steps), "hist", len(hist_cases), "stress", len(stress_cases), "t", time.time() - run.t0)
     baselines = {}
+    base_sha = {}
+    unstable_inputs = 0
     truth_ok = truth_n = 0
     sched_results = []
     # baselines in fresh workers (one input per worker process)
     for case, ob in pool.run_cases("checks.c15:work", base_cases, deadline_s=200, fresh_worker_per_case=True):
         if ob.get("part") == "baseline":
             baselines[_step_key(case["step"])] = ob["digest"]
+            if "-encrypted" in _feature(case["step"]) and not case["step"][1].get("op") and isinstance(ob["digest"], list):
+                run.count("encrypted_pdfs_decrypted_and_extracted_in_isolation")
+            base_sha[_step_key(case["step"])] = ob.get("sha")
             if "truth_ok" in ob:
                 truth_n += 1
                 truth_ok += 1 if ob["truth_ok"] else 0
@@ -563,10 +659,9 @@ def main(run):
                     run.extras.setdefault("context_documents_not_showing_their_ground_truth", []).append(case["step"][1]["src"])
         else:
             run.inconclusive_cases += 1
-    if os.environ.get("VERIF_C15_DEBUG"):
-        print("DEBUG baselines done t", time.time() - run.t0)
     for sc in stress_cases:
         sc["expect"] = [baselines.get(_step_key([inp[0], {"src": inp[1], "op": None}] + list(inp[2:]))) for inp in sc["inputs"]]
+        sc["expect_sha"] = [base_sha.get(_step_key([inp[0], {"src": inp[1], "op": None}] + list(inp[2:]))) for inp in sc["inputs"]]
     group_steps = 0
     # the deadline is a watchdog against a wedged worker only (every case is bounded logically and by the worker's CPU budget)
     for case, ob in pool.run_cases("checks.c15:work", cases + stress_cases + hist_cases, deadline_s=2400):
@@ -604,8 +699,11 @@ def main(run):
         elif part == "stress":
             run.count("stress_extractions", ob["extractions"])
             run.count("stress_inputs_with_isolated_reference", ob.get("isolated_references", 0))
+            unstable_inputs += ob.get("unstable_inputs", 0)
             if case.get("group"):
                 run.count("stress_extractions_on_context_groups", ob["extractions"])
+            if case.get("group") == "pdf:cipher-kernel/document-key":
+                run.count("stress_extractions_on_encrypted_pdfs", ob["extractions"])
             for p in ob["problems"]:
                 feat = p.get("feature")
                 if p.get("part") == "history":
@@ -621,14 +719,22 @@ def main(run):
                 run.violation(f"C15:history:sequence:{p['sym']}", p["detail"], rep)
             for key, ds in ob["digests"].items():
                 b = baselines.get(key)
+                if b is not None and ob.get("shas", {}).get(key) != base_sha.get(key) and any(d != b for d in ds):
+                    # not the bytes the baseline process extracted (writer edited during the run / not deterministic) and another result:
+                    # cannot be attributed to the library.  (Bytes that differ only in a container timestamp give equal results.)
+                    unstable_inputs += 1
+                    continue
                 for d in ds:
                     if b is not None:
                         run.count("history_results_compared_with_isolated_baseline")
                     if b is not None and d != b:
                         feat = _feature(json.loads(key))
                         run.violation(f"C15:history:{feat or 'sequence'}:result-differs-from-isolated-baseline",
-                                      f"{key[:200]}: {d} in a history{' of context group ' + case['group'] if case.get('group') else ''} vs {b} in a fresh process", rep)
+                                      f"{_short(json.loads(key))}: {d} in a history{' of context group ' + case['group'] if case.get('group') else ''} vs {b} in a fresh process", rep)
             run.case(f"history:{case.get('group')}:{ob['steps']}:{len(ob['problems'])}", sample={"part": "history", "steps": ob["steps"]} if len(run.samples) < 5 else None)
+    if unstable_inputs:
+        run.inconclusive(f"{unstable_inputs} inputs were not bit-identical between their isolated baseline process and the history / stress process "
+                         "(a generator that is not deterministic, or one edited while the check was running)")
     run.count("context_groups", len(groups))
     run.count("context_group_history_steps", group_steps)
     run.count("context_documents_showing_their_ground_truth_in_isolation", truth_ok)
@@ -638,12 +744,14 @@ def main(run):
     run.require("scheduler_cases_finished_3_threads", run.counters.get("scheduler_cases_finished_3_threads", 0), 2)
     run.require("schedules_2_threads", run.counters.get("schedules_2_threads", 0), 50)
     run.require("schedules_with_preemption_2_threads", run.counters.get("schedules_with_preemption_2_threads", 0), 1)
-    run.require("schedules_3_threads", run.counters.get("schedules_3_threads", 0), 300)
+    run.require("schedules_3_threads", run.counters.get("schedules_3_threads", 0), run.n(300, 10000))
     run.require("stress_extractions", run.counters.get("stress_extractions", 0), run.n(200, 3000))
     run.require("history_steps", run.counters.get("history_steps", 0), run.n(150, 3000))
     run.require("baselines", len(baselines), 10)
     run.require("history_results_compared_with_isolated_baseline", run.counters.get("history_results_compared_with_isolated_baseline", 0), run.n(300, 3000))
-    run.require("context_groups", len(groups), 25)
+    run.require("context_groups", len(groups), 38)
+    run.require("stress_extractions_on_encrypted_pdfs", run.counters.get("stress_extractions_on_encrypted_pdfs", 0), run.n(60, 200))
+    run.require("encrypted_pdfs_decrypted_and_extracted_in_isolation", run.counters.get("encrypted_pdfs_decrypted_and_extracted_in_isolation", 0), 4)
     run.require("context_group_history_steps", group_steps, run.n(200, 1200))
     run.require("stress_extractions_on_context_groups", run.counters.get("stress_extractions_on_context_groups", 0), run.n(400, 2000))
     run.require("context_documents_showing_their_ground_truth_in_isolation", truth_ok, int(0.9 * truth_n) if truth_n else 1)
